@@ -69,6 +69,13 @@ def run(chk):
     # ---------------------------------------------------------------- C15.a / c / d / e / f
     c15rules.run(chk)
 
+    # ---------------------------------------------------------------- C15.g failure atomicity of the arena containers, roll-back targets
+    from lib import failpure
+    units = [("asmjit/support/%s.cpp" % u, r"asmjit::[A-Za-z_0-9:]+$") for u in ("arenahash", "arenavector", "arenabitset", "arenalist", "arenatree", "arena")]
+    units.append(("asmjit/core/string.cpp", r"asmjit::String::[A-Za-z_0-9]+$"))
+    failpure.run(chk, units)
+    failpure.run_release_not_failed(chk, [("asmjit/core/virtmem.cpp", r"asmjit::VirtMem::[A-Za-z_0-9]+$"), ("asmjit/core/jitallocator.cpp", r"asmjit::JitAllocator")])
+
     return chk.finish(
         level="other",
         explanation=("Error-discipline rules over every non-ujit library unit of /repo's current source: discarded Error results "
